@@ -106,7 +106,7 @@ def coord_to_index(coord, coords, include_stop=False):
 
 
 def gen_coord_list(start, step, count):
-    return np.arange(start, start + step*count, step)
+    return start + step * np.arange(count)
 
 
 def bytes_to_double(bytes):
